@@ -387,6 +387,15 @@ func runStep(faults bool, conditional bool) *verifRun {
 			vrt.Assume(false)
 		}
 	}
+	if verifWantOpenFault && req.method == "COPY" && vrt.Choose("copy-source-unreadable", 2) == 1 {
+		// fault: the source file can be opened but reading it fails
+		vrt.Assume(t.kind[req.pi] == kFile)
+		if vrt.Symbolic() {
+			verifCopyReadFault = true
+		} else if !verifMakeUnreadable(filepath.Join(run.root, req.path)) {
+			vrt.Assume(false)
+		}
+	}
 	fs := LocalFileSystem(run.root)
 	if conditional {
 		symConditional(run, fs)
